@@ -738,6 +738,10 @@ def run_slow_handler(active: bool):
 
 
 # ------------------------------------------------------------------------------------------- the real TCP classes on loopback
+class SkipScenario(Exception):
+    """something only the environment explains (a port taken by another process, the harness's own socket failing): never a violation"""
+
+
 class LoopbackFailure(Exception):
     def __init__(self, cls, what):
         super().__init__(what)
@@ -812,25 +816,45 @@ class RawPeer:
 class Loopback:
     """a REAL HsmsProtocol on the REAL TcpServerConnection / TcpClientConnection, the peer a raw socket on 127.0.0.1"""
 
-    def __init__(self, active: bool):
+    def __init__(self, active: bool, idx: int = 0):
         self.active = active
         self.listener = None
-        if active:
-            self.listener = socket.socket()
-            self.listener.setsockopt(socket.SOL_SOCKET, socket.SO_REUSEADDR, 1)
-            self.listener.bind(("127.0.0.1", 0))
-            self.listener.listen(4)
-            self.listener.settimeout(0.05)
-            self.port = self.listener.getsockname()[1]
-        else:
-            probe = socket.socket()
-            probe.bind(("127.0.0.1", 0))
-            self.port = probe.getsockname()[1]
-            probe.close()
+        try:
+            if active:
+                # the raw peer listens on a port the kernel picks and keeps it for the whole scenario
+                self.listener = socket.socket()
+                self.listener.bind(("127.0.0.1", 0))
+                self.listener.listen(4)
+                self.listener.settimeout(0.05)
+                self.port = self.listener.getsockname()[1]
+            else:
+                # the endpoint binds itself: a port below the ephemeral range, spread by process id so that concurrent runs do not meet,
+                # checked to be free right now (a later collision shows as "cannot connect to OUR endpoint" and is skipped)
+                self.port = None
+                for attempt in range(200):
+                    cand = 20000 + (os.getpid() * 16 + idx * 4 + attempt * 97) % 12000
+                    probe = socket.socket()
+                    try:
+                        probe.bind(("127.0.0.1", cand))
+                        self.port = cand
+                        break
+                    except OSError:
+                        continue
+                    finally:
+                        probe.close()
+                if self.port is None:
+                    raise SkipScenario("no free port for the passive endpoint")
+        except OSError as exc:
+            raise SkipScenario(f"the harness's own socket failed: {exc}") from exc
         mode = HsmsConnectMode.ACTIVE if active else HsmsConnectMode.PASSIVE
         self.p = HsmsProtocol(HsmsSettings(address="127.0.0.1", port=self.port, connect_mode=mode, t5=0.5, t6=3600, t3=3600))
         self.delivered = []
         self.p.events.message_received += lambda data: self.delivered.append(data["message"].header.system)
+        self.closed = [0]  # `disconnected` events: an active endpoint reconnects at once, NOT CONNECTED is only a moment there
+
+        def on_disconnected(_data):
+            self.closed[0] += 1
+        self.p.events.disconnected += on_disconnected
         self.base = 5000
         self.log = []
 
@@ -862,15 +886,18 @@ class Loopback:
                 return True
             except OSError:
                 return False
-        wait_until(attempt, "no TCP connection with the enabled endpoint", "c05-state")
+        if not wait_until(attempt):
+            raise SkipScenario("no TCP connection with the endpoint (port taken by another process, or the endpoint could not bind it)")
         peer = RawPeer(holder[0])
-        wait_until(lambda: self.conn() != "NC", "the session stays NOT CONNECTED although the TCP connection exists", "c05-state")
+        if not wait_until(lambda: self.conn() != "NC"):
+            raise SkipScenario("a TCP connection exists but OUR endpoint did not get it (another process answers on this port)")
         return peer
 
     def peer_close(self, peer):
         self.log.append("peer-close")
+        n = self.closed[0]
         peer.close()
-        wait_until(lambda: self.conn() == "NC", "the session is not NOT CONNECTED after the peer closed", "c05-state")
+        wait_until(lambda: self.closed[0] > n, "the session did not go through NOT CONNECTED (no `disconnected` event) after the peer closed", "c05-state")
 
     def data_not_selected(self, peer):
         """data message while NOT SELECTED: Reject.req reason 4 with its system bytes, never delivered"""
@@ -894,10 +921,14 @@ class Loopback:
             req = [f for f in peer.frames if f["stype"] == 1][-1]
             peer.send(frame(2, req["sys"]))
             wait_until(lambda: self.conn() == "SEL", "not SELECTED after the Select.rsp (status 0) for the endpoint's open Select.req", "c05-state")
-        # the Linktest.req is the fence: answers come in order, so when its response is here every answer to the Select.req is here too
+        # both requests must be answered; a further Linktest round trip afterwards is the fence for "exactly one" (after a reconnect the
+        # endpoint has more than one dispatcher thread - open class c06-dispatcher-leak - so two answers may overtake each other)
         peer.send(frame(1, b + 1))
         peer.send(frame(5, b + 2))
-        peer.read_until(lambda fs: any(f["sys"] == b + 2 for f in fs), f"Select.req sys={b + 1} / Linktest.req sys={b + 2} in {self.conn()} got no answer")
+        peer.read_until(lambda fs: any(f["sys"] == b + 1 for f in fs) and any(f["sys"] == b + 2 for f in fs),
+                        f"Select.req sys={b + 1} / Linktest.req sys={b + 2} in {self.conn()} not both answered")
+        peer.send(frame(5, b + 4))
+        peer.read_until(lambda fs: any(f["sys"] == b + 4 for f in fs), f"Linktest.req sys={b + 4} got no answer")
         sel, lnk = peer.with_sys(b + 1), peer.with_sys(b + 2)
         if [f["stype"] for f in sel] != [2]:
             raise LoopbackFailure("c05-response", f"Select.req sys={b + 1} answered by {[(f['stype'], f['sys']) for f in sel]}, expected exactly one Select.rsp")
@@ -964,19 +995,25 @@ def run_loopback():
     """the scenarios run side by side (own ports): -> [(name, active, log, failure or None)]"""
     out = []
 
-    def one(name, active, script):
-        lb = Loopback(active)
-        fail = None
+    def one(idx, name, active, script):
+        lb, fail, log = None, None, []
         try:
+            lb = Loopback(active, idx)
             script(lb)
+        except SkipScenario as exc:
+            fail = ("skipped", str(exc))
         except LoopbackFailure as exc:
             fail = (exc.cls, exc.what)
+        except OSError as exc:  # the raw peer's own socket: environment
+            fail = ("skipped", f"the harness's own socket failed: {type(exc).__name__}: {exc}")
         except Exception as exc:  # noqa: BLE001
             fail = ("c05-stall", f"loopback scenario died: {type(exc).__name__}: {exc}")
         finally:
-            lb.shutdown()
-        out.append((name, active, list(lb.log), fail))
-    threads = [threading.Thread(target=one, args=x, daemon=True) for x in LOOPBACK]
+            if lb is not None:
+                log = list(lb.log)
+                lb.shutdown()
+        out.append((name, active, log, fail))
+    threads = [threading.Thread(target=one, args=(i,) + x, daemon=True) for i, x in enumerate(LOOPBACK)]
     for t in threads:
         t.start()
     for t in threads:
@@ -1277,7 +1314,9 @@ def main():
     for name, active, log, fail in run_loopback():
         res.count(("loopback", name), sample={"loopback": name, "steps": log})
         res.bump("loopback", f"{name}: {'ok' if fail is None else fail[0]}")
-        if fail is not None:
+        if fail is not None and fail[0] == "skipped":
+            res.notes.append(f"loopback scenario '{name}' SKIPPED (environment, not a finding): {fail[1]}; steps so far: {', '.join(log)}")
+        elif fail is not None:
             res.violate(fail[0], f"real TcpServerConnection/TcpClientConnection, {name}: after {', '.join(log)}: {fail[1]}",
                         {"kind": "loopback", "name": name, "active": active, "steps": log}, expected="the session answers as on a fresh endpoint")
     res.notes.append(f"{len(LOOPBACK)} loopback scenarios on the real TCP connection classes in {time.time() - t0:.1f}s (direct oracle only)")
